@@ -109,3 +109,37 @@ def all_small_mol_pairs(n, elems=("C", "O"), orders=(1, 2)):
                     if o is not None:
                         H.add_edge(ids[a], ids[b], order=o)
                 yield G, H
+
+
+def small_networks(n_species=3, max_rxn=2, coeffs=(1,), species="ABC"):
+    """all reaction networks over n_species with up to max_rxn reactions; sides are multisets with the given
+    coefficients (a side may be empty, a reaction must not be empty on both sides)"""
+    sp = list(species[:n_species])
+    sides = [{}]
+    for k in range(1, n_species + 1):
+        for combo in itertools.combinations(sp, k):
+            for cs in itertools.product(coeffs, repeat=k):
+                sides.append(dict(zip(combo, cs)))
+    rxns = [(r, p) for r in sides for p in sides if (r or p)]
+    for k in range(1, max_rxn + 1):
+        for combo in itertools.combinations_with_replacement(range(len(rxns)), k):
+            yield [rxns[i] for i in combo]
+
+
+def random_network(rng, max_species=6, max_rxn=6, max_coeff=3):
+    sp = ["S%d" % i for i in range(rng.randint(2, max_species))]
+    out = []
+    for _ in range(rng.randint(1, max_rxn)):
+        r = {s: rng.randint(1, max_coeff) for s in rng.sample(sp, rng.randint(0, min(3, len(sp))))}
+        p = {s: rng.randint(1, max_coeff) for s in rng.sample(sp, rng.randint(0, min(3, len(sp))))}
+        if r or p:
+            out.append((r, p))
+    return out or [({sp[0]: 1}, {sp[1]: 1})]
+
+
+def build_crn(rxns, rules=None):
+    from synkit.CRN.Hypergraph.hypergraph import CRNHyperGraph
+    H = CRNHyperGraph()
+    for i, (r, p) in enumerate(rxns):
+        H.add_rxn(dict(r), dict(p), rule=(rules[i] if rules else None))
+    return H
